@@ -879,6 +879,20 @@ func (m *Model) Hash() string {
 		for _, k := range keys {
 			for _, v := range b.Keys[k].Versions {
 				fmt.Fprintf(h, "K%s/%v/%v/%d/%s/%d;", k, v.ID == "null", v.Marker, len(v.Parts), v.Class, v.Size())
+				if v.Size() > 1<<20 {
+					// multi-MiB body: head and tail of every part stand for the content
+					// (bodies are generated with a unique head)
+					for _, p := range v.Parts {
+						n := len(p.Body)
+						if n > 8192 {
+							h.Write(p.Body[:4096])
+							h.Write(p.Body[n-4096:])
+						} else {
+							h.Write(p.Body)
+						}
+					}
+					continue
+				}
 				s := md5.Sum(v.Body())
 				h.Write(s[:4])
 			}
